@@ -50,6 +50,8 @@ Section R.
 End R.
 #[global] Hint Rewrite @r_tl_compute_v : rfn.
 #[global] Hint Rewrite @r_tl_compute_w : rfn.
+#[global] Hint Rewrite @r_tl_seal : rfn.
+#[global] Hint Rewrite @r_tl_unseal : rfn.
 Print Assumptions r_tl_compute_v.
 Print Assumptions r_tl_compute_w.
 Print Assumptions r_tl_seal.
